@@ -18,6 +18,7 @@ import (
 	"github.com/hashicorp/nodeenrollment/registration"
 	"github.com/hashicorp/nodeenrollment/storage/inmem"
 	"github.com/hashicorp/nodeenrollment/types"
+	"google.golang.org/protobuf/proto"
 	"google.golang.org/protobuf/types/known/structpb"
 
 	"verifharness/hs"
@@ -120,6 +121,8 @@ type party struct {
 }
 
 type env struct {
+	lstate  *structpb.Struct // the WithState value in the listener's own options (nil: none), and a pristine copy
+	lstate0 *structpb.Struct
 	srv     *hs.Server
 	g       *gates
 	results chan hs.AcceptResult
@@ -127,10 +130,16 @@ type env struct {
 	wg      sync.WaitGroup
 }
 
-func newEnv(seed int64, spare, acceptors int, sw bool) (*env, error) {
+func newEnv(seed int64, spare, acceptors int, sw, lstate bool) (*env, error) {
 	e := &env{g: newGates(), results: make(chan hs.AcceptResult, 64)}
+	extra := []nodeenrollment.Option{nodeenrollment.WithLogger(hclog.NewNullLogger())}
+	if lstate {
+		e.lstate, _ = structpb.NewStruct(map[string]any{"owner": "listener", "configured": true})
+		e.lstate0 = proto.Clone(e.lstate).(*structpb.Struct)
+		extra = append(extra, nodeenrollment.WithState(e.lstate))
+	}
 	cfg := hs.ServerConfig{Seed: seed, StorageWrapper: sw, NoAcceptLoop: true, OptsSpare: spare,
-		ExtraOpts: []nodeenrollment.Option{nodeenrollment.WithLogger(hclog.NewNullLogger())},
+		ExtraOpts: extra,
 		GenBefore: func(req *types.GenerateServerCertificatesRequest) { e.g.hit("genBefore:" + string(req.CertificatePublicKeyPkix)) },
 		GenAfter:  func(req *types.GenerateServerCertificatesRequest) { e.g.hit("genAfter:" + string(req.CertificatePublicKeyPkix)) },
 	}
@@ -172,6 +181,10 @@ func (e *env) close() {
 }
 
 func (e *env) sentinel() bool {
+	// the application's own option VALUES are untouched too
+	if e.lstate != nil && !proto.Equal(e.lstate, e.lstate0) {
+		return false
+	}
 	full := e.appOpts[:cap(e.appOpts)]
 	for i := len(e.appOpts); i < len(full); i++ {
 		if full[i] != nil {
@@ -279,7 +292,7 @@ func (e *env) judge(p *party, d dialRes, results []hs.AcceptResult) (outcome str
 			if p.state == nil {
 				ownState = mine.State == nil
 			} else {
-				ownState = mine.State != nil && mine.State.Fields["owner"].GetStringValue() == p.name
+				ownState = mine.State != nil && proto.Equal(mine.State, p.state)
 			}
 		}
 	}
@@ -306,7 +319,8 @@ func (e *env) judge(p *party, d dialRes, results []hs.AcceptResult) (outcome str
 		if p.state == nil {
 			ownState = rec.State == nil
 		} else {
-			ownState = rec.State != nil && rec.State.Fields["owner"].GetStringValue() == p.name
+			// exactly the state of ITS token: nothing of another connection's token, nothing of the listener's
+			ownState = rec.State != nil && proto.Equal(rec.State, p.state)
 		}
 		return "enrolled", ownState, ownProtos
 	}
@@ -340,7 +354,8 @@ func want(kind string) string {
 
 // schedule: park A at its gate, run B to completion, release A.
 func schedule(op map[string]any, ln *Line, seed int64) {
-	e, err := newEnv(seed, num(op, "spare"), 2, false)
+	lst, _ := op["lstate"].(bool)
+	e, err := newEnv(seed, num(op, "spare"), 2, false, lst)
 	if err != nil {
 		ln.Res, ln.Obs.Msg = "setup-error", err.Error()
 		return
@@ -388,7 +403,8 @@ func schedule(op map[string]any, ln *Line, seed int64) {
 
 // mix: free-running concurrent handshakes (race detector + outcome comparison).
 func mix(op map[string]any, ln *Line, seed int64) {
-	e, err := newEnv(seed, num(op, "spare"), 4, false)
+	lst, _ := op["lstate"].(bool)
+	e, err := newEnv(seed, num(op, "spare"), 4, false, lst)
 	if err != nil {
 		ln.Res, ln.Obs.Msg = "setup-error", err.Error()
 		return
